@@ -3,8 +3,8 @@ import os, sys, json, subprocess, re, glob, binascii
 import common, tlc, zw, dwarfchk as D
 
 PID = "C02"
-Q_ENTRY = "raw entry [offset, label value, [parent offset], [child offset], [attribute [label value, form value]], [?haschildren 1]]"
-Q_UNIT = "raw unit [offset, [root offset], [entry offset]]"
+Q_ENTRY = "raw entry (|D| [D, D label value, [D parent], [D child], [D attribute [label value, form value]], [D ?haschildren 1]])"
+Q_UNIT = "raw unit (|U| [U offset, [U root], [U entry]])"
 Q_ENTRY2 = "entry raw [offset, [parent offset], [child offset], [attribute label value]]"     # cooked Dwarf, DIEs switched to raw
 
 
@@ -47,19 +47,20 @@ def check_forest(vd, v, b, recs, key):
     ok = True
     exp_order = v["raw_preorder"]
     got = [r[-1]["v"] for r in ent["results"]]
-    got_ids = [b.rev.get(D.cst(g[0]), -1) for g in got]
+    got_ids = [D.ident(b, g[0]) for g in got]
+    gattrs = D.gen_attrs(F)
     if got_ids != exp_order:
         vd.observe(key + " DIE order", {"expected": exp_order, "observed": got_ids, "file": b.path}); ok = False
     for g in got:
-        i = b.rev.get(D.cst(g[0]), None)
-        if i is None:
+        i = D.ident(b, g[0])
+        if i < 0:
             continue
         d = F["die"][i - 1]
         exp_par = v["raw_parent"][i - 1]
-        par = [b.rev.get(D.cst(x), -1) for x in g[2]["v"]]
-        kids = [b.rev.get(D.cst(x), -1) for x in g[3]["v"]]
+        par = [D.ident(b, x) for x in g[2]["v"]]
+        kids = [D.ident(b, x) for x in g[3]["v"]]
         attrs = [(D.cst(a["v"][0]), D.cst(a["v"][1])) for a in g[4]["v"]]
-        exp_attrs = [(D.ATN[a["n"]], D.FORMC[a["f"]]) for a in d["attrs"]]
+        exp_attrs = gattrs[i]
         hc = len(g[5]["v"]) == 1
         why = None
         if D.cst(g[1]) != D.TAG[d["tag"]]: why = "tag"
@@ -77,7 +78,7 @@ def check_forest(vd, v, b, recs, key):
     # units
     ug = [r[-1]["v"] for r in unit["results"]]
     exp_units = [(b.unit_off[i], F["units"][i]["root"], v["unit_dies"][i]) for i in range(len(F["units"]))]
-    got_units = [(D.cst(u[0]), [b.rev.get(D.cst(x), -1) for x in u[1]["v"]], [b.rev.get(D.cst(x), -1) for x in u[2]["v"]]) for u in ug]
+    got_units = [(D.cst(u[0]), [D.ident(b, x) for x in u[1]["v"]], [D.ident(b, x) for x in u[2]["v"]]) for u in ug]
     if [(o, [r], ds) for o, r, ds in exp_units] != got_units:
         vd.observe(key + " units", {"expected": exp_units, "observed": got_units, "file": b.path}); ok = False
     return ok
@@ -92,6 +93,9 @@ def run(tier):
     allv = []
     for n in ((3, 4, 5, 6) if tier == "quick" else (3, 4, 5, 6, 7)):
         allv += D.gen_forests("raw", n, wd)
+    # with a dwz alt file: the raw view lists the units (and DIEs) of the alt file after those of the main file
+    for n in ((4, 5) if tier == "quick" else (4, 5, 6)):
+        allv += D.gen_forests("altnav", n, wd)
     bad_model = [v for v in allv if not v["ok"]["raw"]]
     if bad_model:
         vd.observe("model:all_dies_iterator does not visit the pre-order", {"forest": bad_model[0]["forest"]})
